@@ -16,6 +16,13 @@ fn v(class: impl Into<String>, detail: impl Into<String>) -> Violation {
     Violation { class: class.into(), detail: detail.into() }
 }
 
+/// Is document `d` a workspace file under the configuration in force at the end of the run?
+/// Documents outside the file pattern are filtered by design (`is_workspace_file`) and never
+/// analysed; the last .emmyrc.json written may exclude the `deep/` directories.
+pub fn workspace_file_at_end(spec: &RunSpec, out: &Outcome, d: usize) -> bool {
+    spec.docs[d].in_workspace && !(out.ignore_deep_final && spec.docs[d].rel.contains("deep/"))
+}
+
 #[derive(Debug, Clone, PartialEq)]
 pub enum Probe {
     Unanswered,
@@ -72,7 +79,7 @@ pub fn content_oracle(prop: &str, spec: &RunSpec, out: &Outcome) -> Vec<Violatio
     }
     for (d, id) in &out.tree_probe {
         let ds = &spec.docs[*d];
-        if !ds.in_workspace {
+        if !workspace_file_at_end(spec, out, *d) {
             continue; // filtered by design (`is_workspace_file`), never analysed
         }
         let p = probe_of(out, *id);
@@ -165,7 +172,7 @@ pub fn content_oracle(prop: &str, spec: &RunSpec, out: &Outcome) -> Vec<Violatio
     // index under a fresh tree (text stored, analysis skipped) is invisible to the tree probe.
     for (d, id) in &out.sem_probe {
         let ds = &spec.docs[*d];
-        if !ds.in_workspace {
+        if !workspace_file_at_end(spec, out, *d) {
             continue;
         }
         let expected = match (&out.editor_at_probe[*d], &out.disk_at_probe[*d]) {
@@ -211,7 +218,7 @@ pub fn content_oracle(prop: &str, spec: &RunSpec, out: &Outcome) -> Vec<Violatio
     // that treats them as closed must pick the new content up (open files ignore disk changes).
     for (d, id) in &out.tree_probe2 {
         let ds = &spec.docs[*d];
-        if !ds.in_workspace {
+        if !workspace_file_at_end(spec, out, *d) {
             continue;
         }
         let want = out.disk[*d].as_deref().and_then(only_marker);
